@@ -104,6 +104,19 @@ def cases() -> List[Dict[str, Any]]:
         "src/shapes/__init__.py": "from ._impl import Shape\n__all__ = ['Shape']\n",
         "src/shapes/_impl.py": "class Shape:\n    def area(self):\n        'doc'\n",
         "drawing.py": "from shapes._impl import Shape\nclass Circle(Shape):\n    pass\n"}, ["legacy/shapes.py", "src/shapes", "drawing.py"]))
+    # order dependences found by a seeding agent (round 11) on the unchanged tree
+    out.append(hw("doc-assignment-to-a-moved-function", {
+        "impl.py": "def f():\n    'old'\nclass K:\n    'old K'\n", "api.py": "from impl import f, K\n__all__ = ['f', 'K']\n",
+        "user.py": "from impl import f, K\nf.__doc__ = 'new'\nK.__doc__ = 'new K'\n"}, ["api.py", "impl.py", "user.py"]))
+    out.append(hw("subpackage-renamed-then-named-by-its-old-path", {
+        "pkg/__init__.py": "from . import impl as vendor\n__all__ = ['vendor']\n", "pkg/impl/__init__.py": "",
+        "pkg/impl/six.py": "class Base:\n    def meth(self): pass\n",
+        "pkg/a_sib.py": "from .impl.six import Base\nclass D(Base):\n    meth = 3\n",
+        "pkg/z_sib.py": "from pkg.impl.six import Base\nclass E(Base):\n    meth = 3\n"}, ["pkg"]))
+    out.append(hw("star-import-of-a-package-listing-a-submodule", {
+        "pkg/__init__.py": "__all__ = ['sub']\n", "pkg/sub.py": "class Base:\n    def meth(self): pass\n",
+        "a_user.py": "from pkg import *\nclass D(sub.Base):\n    meth = 3\n",
+        "z_user.py": "from pkg import *\nclass E(sub.Base):\n    meth = 3\n"}, ["a_user.py", "pkg", "z_user.py"]))
     # a file that does not parse, reached first through an import or first by the main loop
     out.append(hw("unparsable-module-imported", {
         "pk/__init__.py": "", "pk/atool.py": "from pk import legacy\nclass A:\n    pass\n", "pk/ztool.py": "from pk import legacy\nclass Z:\n    pass\n",
